@@ -178,6 +178,16 @@ def stream(tier):
             res.violation("own-close-reported", "no peer failure, no failing write, yet the I/O handler / exit was invoked: %r" % (ioh + exits,), inp)
         if any(e[2] == "recv-on-closed" for e in ev) and any(e[3] == "R" for e in ioh) and not any(e[2] in ("recv-eof", "recv-reset") for e in ev):
             res.violation("own-close-reported", "the read failure caused by close() was reported", inp)
+        if wfail and not peer:
+            # a failing write is never of close()'s making (the writer has ended before the socket is closed): it is reported
+            # to the installed handler exactly once, from the writer thread, and the process exits iff no handler is installed or
+            # it answered True — whether or not a close() is under way
+            h = scn["handler"]
+            w_ioh = [e for e in ioh if e[3] == "W"]
+            want_exit = h == "absent" or h is True
+            if len(w_ioh) != (0 if h == "absent" else 1) or bool(exits) != want_exit:
+                res.violation("write-failure-reporting-during-close", "write #%s failed with handler=%r while the application was closing: %d handler "
+                              "notifications from the writer, %d exits" % (scn.get("fail_write_at"), h, len(w_ioh), len(exits)), inp)
         a_done = out["threads"].get("A", (False,))[0]
         if a_done and not out["exited"]:
             if out["close_calls"] != scn["closes"]:
@@ -188,6 +198,28 @@ def stream(tier):
                 res.violation("close-pool", "close() returned with accepted tasks unfinished: submitted=%d finished=%d" % (out["pool_submitted"], out["pool_finished"]), inp)
             if out["status"] == "quiescent" and not out["threads"].get("R", (True,))[0]:
                 res.violation("close-threads", "reader still alive at quiescence after close() returned", inp)
+        if a_done and not out["exited"] and out["status"] == "quiescent" and not wfail:
+            # "already accepted worker tasks complete": every request the reader dispatched (it was read and, if it needed a pool
+            # task of its own, the pool took it) is worked off — its reply is produced (whether the stopped writer still writes it
+            # is another matter)
+            # a chunk counts once the reader is back at its loop test after dispatching all of it (a request whose `submit` the
+            # shut-down pool refused was never accepted, and ends the reader)
+            read, cur = [], []
+            for e in ev:
+                if e[1] != "R":
+                    continue
+                if e[2] == "recv":
+                    cur = [ln.split("|")[0] for ln in e[3].decode("ascii").split("\n") if ln.strip() and "|" in ln]
+                elif e[2] == "event-test":
+                    read += cur
+                    cur = []
+                elif e[2] == "submit-refused":
+                    break
+            answered = {e[4].split("|")[0] for e in ev if e[2] == "enqueue" and e[4] != "STOP_WAITING_PILL"}
+            dropped = [r for r in read if r not in answered]
+            if dropped and not peer:
+                res.violation("accepted-request-dropped", "close() returned, nothing is left to run, but the accepted request(s) %r were never worked off "
+                              "(no reply was ever produced)" % dropped, inp)
         if not a_done and not out["exited"] and out["status"] == "quiescent":
             res.violation("close-hangs", "close() never returned (nothing left to run)", inp)
         want_h = 0 if scn["handler"] == "absent" else 1
